@@ -353,8 +353,12 @@ def _run_one(tier, seed, jobs, budget, world_kw):
                 if d:
                     fx.add_failure(row, clause, 'output-differs', replay, d)
                 if notes:
-                    fx.add_failure(row, CL_DTYPE, 'dtype-differs-values-' + ('differ' if d else 'equal'),
-                                   replay, '; '.join(notes[:6]))
+                    # equal values stored with a different integer width (n_processors=1 writes
+                    # int64 index arrays, >=2 workers uint8): recorded, not a violation of C04
+                    row.setdefault('observations', [])
+                    if len(row['observations']) < 5:
+                        row['observations'].append('dtype differs, values ' + ('differ' if d else 'equal')
+                                                   + ': ' + '; '.join(notes[:3]))
             done += step
         # hash seeds
         pump_hash(block=False)
